@@ -267,6 +267,11 @@ def check_mut_splits(res, facts):
                 r = canon(pe.local(0, (path[-1], len(v.blocks[path[-1]]["stmts"]))))
                 if not any(x == ("param", 1) for x in walk(r)):
                     return ["a path returns a handle that is not derived from self (%s): the result does not keep the address" % fmt_expr(r)[:60]]
+                # ... and derived by sharing, not by copying: no constructor that allocates takes part in it
+                for x in walk(r):
+                    if isinstance(x, tuple) and x and x[0] == "call" and x[1].rsplit("::", 1)[-1] in ("from", "to_vec", "with_capacity", "from_vec", "copy_from_slice", "zeroed", "to_owned", "clone", "from_iter") \
+                            and ("BytesMut" in x[1] or "Bytes" in x[1] or "Vec" in x[1] or "slice" in x[1]):
+                        return ["a path returns a handle built by `%s` (%s): a copy of the bytes in a new buffer, not a part cut out of self" % (x[1].rsplit("::", 2)[-2] + "::" + x[1].rsplit("::", 1)[-1] if "::" in x[1] else x[1], fmt_expr(r)[:60])]
             return []
         with_fallback(res, facts, b, key, probs_of, "every return path yields a handle derived from self")
 
